@@ -49,7 +49,18 @@ static void init(void) {
 }
 
 static int below(const char *path) {
-    return prefix && path && strncmp(path, prefix, prefix_len) == 0;
+    if (!prefix || !path) return 0;
+    if (path[0] == '/') return strncmp(path, prefix, prefix_len) == 0;
+    /* a relative name: taken from the working directory (the server is started with one) */
+    char cwd[4096];
+    if (!getcwd(cwd, sizeof cwd)) return 0;
+    size_t n = strlen(cwd);
+    if (n >= prefix_len) return strncmp(cwd, prefix, prefix_len) == 0;
+    /* cwd is an ancestor of the prefix: compare cwd/path */
+    char full[8192];
+    while (path[0] == '.' && path[1] == '/') path += 2;
+    snprintf(full, sizeof full, "%s/%s", cwd, path);
+    return strncmp(full, prefix, prefix_len) == 0;
 }
 
 static void op(const char *name, const char *detail) {
